@@ -26,17 +26,24 @@ import (
 
 // Scenario is one tuple of the C18 scenario space with concrete credentials.
 type Scenario struct {
-	ID    string `json:"id"`
-	Mech  string `json:"mech"`  // PLAIN | SCRAM-SHA-256 | SCRAM-SHA-512
-	HvMax int    `json:"hvmax"` // highest SaslHandshake version the broker advertises
-	AuthV int    `json:"authv"` // highest SaslAuthenticate version the broker advertises
-	Creds string `json:"creds"` // right | wrongPassword | unknownUser
-	FKind string `json:"fkind"` // none | unsupported | error | malformed | badproof | close
-	FStep int    `json:"fstep"` // 0 handshake, 1, 2 authenticate round
-	FConn int    `json:"fconn"` // 0: the fault applies to every connection, k: only to the k-th connection dialled
-	Entry string `json:"entry"` // dial | leader | transport | transportconc
-	Conc  int    `json:"conc"`  // transportconc: number of concurrent requests
-	Class string `json:"class"` // credential class (informational)
+	ID   string `json:"id"`
+	Mech string `json:"mech"` // PLAIN | SCRAM-SHA-256 | SCRAM-SHA-512
+	// What the broker's ApiVersions response says about SaslHandshake (key 17) and SaslAuthenticate (key 36):
+	//   HsAdv:   absent (no entry) | v0 (0..0) | v0v1 (0..1) | v1 (1..1)
+	//   AuthAdv: absent | v0 (0..0) | v0v1 (0..1)
+	// Scenarios written before these fields existed carry HvMax / AuthV instead (highest advertised version).
+	HsAdv   string `json:"hsadv"`
+	AuthAdv string `json:"authadv"`
+	HvMax   int    `json:"hvmax"`
+	AuthV   int    `json:"authv"`
+	Creds   string `json:"creds"` // right | wrongPassword | unknownUser
+	FKind   string `json:"fkind"` // none | unsupported | error | malformed | badproof | close
+	FStep   int    `json:"fstep"` // 0 handshake, 1, 2 authenticate round
+	FCode   int    `json:"fcode"` // fkind error: the error code of the answer (33 | 34 | 58 | -1)
+	FConn   int    `json:"fconn"` // 0: the fault applies to every connection, k: only to the k-th connection dialled
+	Entry   string `json:"entry"` // dial | leader | transport | transportconc
+	Conc    int    `json:"conc"`  // transportconc: number of concurrent requests
+	Class   string `json:"class"` // credential class (informational)
 	// registered on the broker
 	User string `json:"user"`
 	Pass string `json:"pass"`
@@ -124,9 +131,31 @@ func (r *run) setup() {
 	r.net = fakenet.NewNet()
 	r.cl = fakekafka.NewCluster(r.net, 2)
 	r.cl.AddTopic(topic, 2) // partition 0 on broker 1, partition 1 on broker 2
+	if sc.HsAdv == "" {
+		sc.HsAdv = map[int]string{0: "v0", 1: "v0v1"}[sc.HvMax]
+	}
+	if sc.AuthAdv == "" {
+		sc.AuthAdv = map[int]string{0: "v0", 1: "v0v1"}[sc.AuthV]
+	}
 	vs := fakekafka.DefaultVersions()
-	vs[fakekafka.SaslHandshake] = fakekafka.VersionRange{Min: 0, Max: int16(sc.HvMax)}
-	vs[fakekafka.SaslAuthenticate] = fakekafka.VersionRange{Min: 0, Max: int16(sc.AuthV)}
+	switch sc.HsAdv {
+	case "absent":
+		delete(vs, fakekafka.SaslHandshake) // the ApiVersions response has no entry for key 17
+	case "v0":
+		vs[fakekafka.SaslHandshake] = fakekafka.VersionRange{Min: 0, Max: 0}
+	case "v0v1":
+		vs[fakekafka.SaslHandshake] = fakekafka.VersionRange{Min: 0, Max: 1}
+	case "v1":
+		vs[fakekafka.SaslHandshake] = fakekafka.VersionRange{Min: 1, Max: 1}
+	}
+	switch sc.AuthAdv {
+	case "absent":
+		delete(vs, fakekafka.SaslAuthenticate)
+	case "v0":
+		vs[fakekafka.SaslAuthenticate] = fakekafka.VersionRange{Min: 0, Max: 0}
+	case "v0v1":
+		vs[fakekafka.SaslAuthenticate] = fakekafka.VersionRange{Min: 0, Max: 1}
+	}
 	r.cl.Versions = vs
 	var mechs []string
 	for _, m := range []string{"PLAIN", "SCRAM-SHA-256", "SCRAM-SHA-512"} {
@@ -145,8 +174,18 @@ func (r *run) setup() {
 	case "error", "malformed", "badproof", "close":
 		cfg.FailKind, cfg.FailStep = sc.FKind, sc.FStep
 	}
+	if sc.FKind == "error" {
+		if sc.FCode == 0 { // older scenarios: the broker's default codes
+			sc.FCode = 58
+			if sc.FStep == 0 {
+				sc.FCode = 34
+			}
+		}
+		cfg.ErrorCode = int16(sc.FCode)
+	}
 	cfg.OnEvent = func(e fakekafka.SaslEvent) {
-		r.rec.Emit(trace.Event{"ev": "srv", "conn": e.ConnID, "what": e.Ev, "round": e.Round, "broker": e.Broker})
+		code, _ := e.Info["code"].(int)
+		r.rec.Emit(trace.Event{"ev": "srv", "conn": e.ConnID, "what": e.Ev, "round": e.Round, "broker": e.Broker, "code": code})
 	}
 	r.cl.Sasl = cfg
 	r.cl.OnJournal = func(e fakekafka.JournalEntry) {
@@ -181,7 +220,7 @@ func (r *run) setup() {
 			return nil
 		}
 		rep := req.Broker.Handle(req) // journals the request
-		r.rec.Emit(trace.Event{"ev": "srv", "conn": req.Conn.ID, "what": "versions", "round": 0, "broker": req.Broker.ID, "hvmax": sc.HvMax})
+		r.rec.Emit(trace.Event{"ev": "srv", "conn": req.Conn.ID, "what": "versions", "round": 0, "broker": req.Broker.ID, "hsadv": sc.HsAdv, "authadv": sc.AuthAdv})
 		return &rep
 	}
 }
@@ -320,12 +359,15 @@ func Run(sc *Scenario) []trace.Event {
 	}
 	var out []trace.Event
 	for k, id := range ids {
-		fk, fs := "none", 0
+		fk, fs, fc := "none", 0, 0
 		if sc.FKind == "unsupported" || (sc.FKind != "none" && (sc.FConn == 0 || sc.FConn == id)) {
 			fk, fs = sc.FKind, sc.FStep
+			if fk == "error" {
+				fc = sc.FCode
+			}
 		}
 		out = append(out, trace.Event{"ev": "cfg", "id": fmt.Sprintf("%s#%d", sc.ID, k+1), "scenario": sc.ID, "conn": id,
-			"mech": sc.Mech, "hvmax": sc.HvMax, "authv": sc.AuthV, "creds": sc.Creds, "fkind": fk, "fstep": fs, "attr": attr[id],
+			"mech": sc.Mech, "hsadv": sc.HsAdv, "authadv": sc.AuthAdv, "creds": sc.Creds, "fkind": fk, "fstep": fs, "fcode": fc, "attr": attr[id],
 			"entry": sc.Entry, "class": sc.Class, "nconns": len(ids)})
 		for _, e := range evs {
 			if c, _ := e["conn"].(int); c == id {
